@@ -341,6 +341,7 @@ pub fn world_engine(prop: &str, thorough: bool) -> Option<WorldEngine> {
             prop: "C13",
             profiles: vec![
                 (Profile::Indep, 10),
+                (Profile::ForEachDual, 2),
                 (Profile::Dual(Op::Map), 1),
                 (Profile::Dual(Op::Scan), 1),
                 (Profile::Dual(Op::Take), 1),
